@@ -120,10 +120,26 @@ func c23Table() map[string]c23Method {
 			c23V("keys", func(e *c23Env) []interface{} {
 				return []interface{}{ctxOf(e), &ImportRequest{Index: "ik", Field: "fk", Shard: 0, RowKeys: []string{"rk"}, ColumnKeys: []string{"ck"}}}
 			}),
+			// every combination of the import options (an option must never open a side door past the gate)
+			c23V("ids-ignoreKeyCheck", func(e *c23Env) []interface{} {
+				return []interface{}{ctxOf(e), &ImportRequest{Index: "i", Field: "f", Shard: 0, RowIDs: []uint64{2}, ColumnIDs: []uint64{4}}, OptImportOptionsIgnoreKeyCheck(true)}
+			}),
+			c23V("clear-ignoreKeyCheck", func(e *c23Env) []interface{} {
+				return []interface{}{ctxOf(e), &ImportRequest{Index: "i", Field: "f", Shard: 0, RowIDs: []uint64{1}, ColumnIDs: []uint64{2}}, OptImportOptionsClear(true), OptImportOptionsIgnoreKeyCheck(true)}
+			}),
 		}},
 		"ImportValue": {c23Data, "import", []c23Variant{
 			c23V("ids", func(e *c23Env) []interface{} {
 				return []interface{}{ctxOf(e), &ImportValueRequest{Index: "i", Field: "v", Shard: 0, ColumnIDs: []uint64{3}, Values: []int64{5}}}
+			}),
+			c23V("clear", func(e *c23Env) []interface{} {
+				return []interface{}{ctxOf(e), &ImportValueRequest{Index: "i", Field: "v", Shard: 0, ColumnIDs: []uint64{1}, Values: []int64{42}}, OptImportOptionsClear(true)}
+			}),
+			c23V("ignoreKeyCheck", func(e *c23Env) []interface{} {
+				return []interface{}{ctxOf(e), &ImportValueRequest{Index: "i", Field: "v", Shard: 0, ColumnIDs: []uint64{4}, Values: []int64{6}}, OptImportOptionsIgnoreKeyCheck(true)}
+			}),
+			c23V("clear-ignoreKeyCheck", func(e *c23Env) []interface{} {
+				return []interface{}{ctxOf(e), &ImportValueRequest{Index: "i", Field: "v", Shard: 0, ColumnIDs: []uint64{1}, Values: []int64{42}}, OptImportOptionsClear(true), OptImportOptionsIgnoreKeyCheck(true)}
 			}),
 		}},
 		"ImportRoaring": {c23Data, "import", []c23Variant{
